@@ -2,21 +2,35 @@
 //!
 //! Oracle: a shadow log (per segment: list of `(file_id, page_no, image-id, kind)` in write order)
 //! driven in lock-step with the real `turdb::storage::Wal`. Every 16 KiB page image is filled with
-//! a unique 64-bit id, so a recovered page names the write it came from.
+//! a unique 64-bit id, so a recovered page names the write it came from; observation storages are
+//! pre-filled with a sentinel, so "untouched", "all-zero page applied" and "image X applied" differ.
 //!
-//! Build phase: random sequences of frame writes (all public write variants), `rotate_segment`,
-//! `truncate`, `checkpoint`, the Database-style "rotate + replay closed + remove closed" cycle,
-//! drop + `Wal::open`, torn-tail crash + `Wal::open`, sync-mode changes; observations through
-//! `recover_for_file`, `replay_segments_to_storage`, `recover` (single-file logs) and `read_page`.
-//! An independent byte-level audit of the segment files (own CRC-64/ECMA-182) is used only to
-//! *name the cause* of a behavioural mismatch and to decide which logs are fit for the corruption
-//! phase; it never produces a verdict by itself.
+//! Build phase: 7 fixed minimal histories (one per defect class seen so far) + random sequences of
+//! frame writes (write_frame, write_frame_with_file_id, write_frames_batch[_no_sync],
+//! write_undo_frame, WalStoragePerTable::flush_wal_for_table), `rotate_segment`, `truncate`,
+//! `checkpoint`, the Database-style "rotate + replay closed + remove closed" cycle, drop +
+//! `Wal::open`, torn-tail crash + `Wal::open`, sync-mode changes. Each sequence enables a random
+//! subset of these features. Observations: `recover_for_file`, `replay_segments_to_storage`,
+//! `recover` (single-file logs), `checkpoint`, `read_page`.
+//!
+//! Sub-assertions: no_panic, api_ok, recover_ok, page_last_valid_image,
+//! reopen_append_preserves_frames, never_written_not_replayed, no_frame_after_invalid,
+//! prefix_exact, read_page_latest, closed_segments_listed. The signature is
+//! `C03/<assertion>/<cause>`; the cause of a behavioural mismatch is established by an independent
+//! byte-level audit of the segment files against the shadow (own CRC-64/ECMA-182): where did the
+//! frames really land (cursor at 0 after reopen, zero hole after truncate, frames flushed after a
+//! truncate, torn tail kept). The audit never produces a verdict by itself; it also decides which
+//! logs are fit for the corruption phase.
 //!
 //! Corruption phase (only on logs whose bytes equal the shadow layout): every frame boundary
 //! +-{0,1,31,32,33,8192} bytes is used as a truncation point of every segment file, plus sampled
 //! byte flips, 4 KiB zero fills, zero tails, appended garbage and appended zeros. Expected result:
 //! exactly the frames of the longest prefix (across segments, in write order) whose bytes are
-//! intact.
+//! intact. When the result differs it is compared with exact emulations of the known wrong
+//! behaviours (each segment contributes its own prefix; all-zero slots count as frames) to name
+//! the cause; anything else is `prefix_exact/corrupt_<kind>`.
+//!
+//! Debug aid: `C03_DUMP=<file>` writes one JSON line per failed case.
 use crate::report::{catch, panic_site, Ctx};
 use crate::rng::{fnv, Rng};
 use crate::Args;
@@ -569,6 +583,7 @@ struct Seq {
     compared: u64,
     t_observe: f64,
     t_corrupt: f64,
+    deadline: std::time::Instant,
 }
 
 const API_NAMES: [&str; 6] = ["write_frame", "write_frame_with_file_id", "write_frames_batch", "write_frames_batch_no_sync", "write_undo_frame", "flush_wal_for_table"];
@@ -700,7 +715,7 @@ impl Seq {
                 Op::Flush { fid, pages: pages.into_iter().collect() }
             }
             6 => Op::Rotate,
-            7 => Op::Truncate,
+            7 => Op::Truncate { sync_first: !self.fl.nosync || self.rng.chance(1, 2) },
             8 => Op::Checkpoint { sync_first: true },
             9 => Op::DbCkpt,
             10 => Op::Reopen,
@@ -795,13 +810,21 @@ impl Seq {
                     self.sh.rotate();
                 }
             }
-            Op::Truncate => {
+            Op::Truncate { sync_first } => {
+                if sync_first {
+                    self.log.push("sync".into());
+                    if self.api("sync", |w| w.sync()).is_none() {
+                        return;
+                    }
+                }
                 self.log.push("truncate".into());
                 if self.api("truncate", |w| w.truncate()).is_some() {
                     self.sh.truncate();
                 }
             }
-            Op::Checkpoint { sync_first: true } => {
+            Op::Checkpoint { sync_first } if sync_first || self.sh.reopen_appends > 0 || self.sh.truncs > 0 || self.sh.garbage_tail_injected || self.sh.zero_tail_injected => {
+                // (the unsynced variant is only run on histories without reopen-append/truncate/crash
+                // steps, so that what it reports cannot be an effect of those)
                 self.log.push("sync + checkpoint(storage)".into());
                 let au = match self.audit_now() {
                     Some(a) => a,
@@ -822,7 +845,7 @@ impl Seq {
                     }
                 }
             }
-            Op::Checkpoint { sync_first: false } => {
+            Op::Checkpoint { .. } => {
                 // frames may still sit in the writer's buffer (non-Full sync mode / no_sync batch).
                 // Demanded: no acknowledged frame vanishes - after the checkpoint every page holds its
                 // last image either in the storage or through a later recovery of what the log kept.
@@ -840,6 +863,19 @@ impl Seq {
                 self.compared += exp.count as u64;
                 match (r1, r2) {
                     (Ok(o1), Ok(o2)) => {
+                        // the truncate inside checkpoint may itself leave a zero hole in front of the
+                        // frames it flushes afterwards: that is the truncate defect, not a lost frame
+                        let zero_frames = o2.pages.iter().take(ip as usize).any(|p| *p == PObs::Zero) || o1.count + o2.count > exp.count;
+                        if zero_frames {
+                            self.sh.truncs += 1;
+                            self.fail(
+                                "never_written_not_replayed",
+                                "C03/never_written_not_replayed/zero_hole_after_truncate".into(),
+                                json!({"api": "checkpoint, then recover of what the log kept", "frames_applied_by_checkpoint": o1.count, "frames_recovered_from_log_afterwards": o2.count, "frames_in_shadow": exp.count,
+                                       "pages_recovered_from_log_afterwards": o2.pages.iter().map(|p| pobs_str(*p)).collect::<Vec<_>>()}),
+                            );
+                            return;
+                        }
                         let mut lost = vec![];
                         for (p, img) in &exp.pages {
                             let a = o1.pages.get(*p as usize).copied();
@@ -1065,9 +1101,16 @@ impl Seq {
         let files: Vec<u64> = if self.fl.single { vec![0] } else { (0..NFILES).collect() };
         let seg_paths: Vec<PathBuf> = self.sh.segs.keys().map(|n| self.dir.join(format!("wal.{:06}", n))).collect();
         let ip = self.init_pages;
-        for &f in &files {
+        // final observation: every file through one API (alternating) and one random file through both;
+        // intermediate observations: two random files, one API each
+        let both = self.rng.below(files.len() as u64) as usize;
+        let skip = if final_ || files.len() == 1 { usize::MAX } else { self.rng.below(files.len() as u64) as usize };
+        for (fi, &f) in files.iter().enumerate() {
+            if !final_ && au.ok && files.len() > 1 && (fi == skip || fi == (skip + 1) % files.len()) {
+                continue;
+            }
             let exp = expect_of(self.sh.frames(), Some(f));
-            let apis: Vec<u8> = if final_ { vec![0, 1] } else { vec![self.rng.below(2) as u8] };
+            let apis: Vec<u8> = if final_ && fi == both { vec![0, 1] } else { vec![((fi as u64 + self.res.idx) % 2) as u8] };
             for a in apis {
                 let wal = self.wal.take().unwrap();
                 let (name, r) = if a == 0 { ("recover_for_file", observe(&mut self.rec, ip, |st| wal.recover_for_file(st, f))) } else { ("replay_segments_to_storage", observe(&mut self.rec, ip, |st| Wal::replay_segments_to_storage(&seg_paths, st, f))) };
@@ -1230,6 +1273,11 @@ impl Seq {
         let flen = |p: &Path| std::fs::metadata(p).map(|m| m.len() as usize).unwrap_or(0);
         for (ci, (si, kind, mutn)) in cases.iter().enumerate() {
             use std::os::unix::fs::FileExt;
+            if std::time::Instant::now() > self.deadline {
+                // wall budget: recorded, not a verdict (the sweep of this file is then not exhaustive)
+                self.res.c("corruption/cases_skipped_at_deadline", (cases.len() - ci) as u64);
+                break;
+            }
             for d in 0..segs.len() {
                 if d != *si && disk[d].is_some() {
                     std::fs::write(&paths[d], &segs[d].1).unwrap();
@@ -1441,7 +1489,7 @@ enum Op {
     Undo { table: u32, txn: u32, page: u32, dbs: u32 },
     Flush { fid: u64, pages: Vec<u32> },
     Rotate,
-    Truncate,
+    Truncate { sync_first: bool },
     Checkpoint { sync_first: bool },
     DbCkpt,
     Reopen,
@@ -1461,25 +1509,11 @@ fn kind_class(kind: &str) -> &str {
     kind.split(|c| c == '@' || c == '(').next().unwrap_or(kind)
 }
 
-fn run_sequence(idx: u64, seed: u64, base: &Path, lane: u64, cor_num: u64, cor_den: u64, cor_samples: usize, crc: &[u64; 256]) -> SeqResult {
-    let t_seq = std::time::Instant::now();
-    let mut rng = Rng::new(seed);
+fn new_seq(idx: u64, rng: Rng, base: &Path, lane: &str, fl: Flags, init_pages: u32, crc: &[u64; 256], deadline: std::time::Instant) -> Seq {
     let scr = base.join(format!("lane{}", lane));
     let dir = scr.join("wal");
     let _ = std::fs::remove_dir_all(&scr);
     std::fs::create_dir_all(&scr).unwrap();
-    let fl = Flags {
-        single: rng.chance(3, 10),
-        reopen: rng.chance(45, 100),
-        trunc: rng.chance(40, 100),
-        rotate: rng.chance(50, 100),
-        undo: rng.chance(20, 100),
-        nosync: rng.chance(40, 100),
-        torn: rng.chance(15, 100),
-        dbckpt: rng.chance(25, 100),
-    };
-    let init_pages = if rng.chance(1, 4) { 1 + rng.below(NPAGES as u64) as u32 } else { NPAGES };
-    let nops = rng.usize(8, 40);
     let rec_path = scr.join("rec.tbd");
     let mut s = Seq {
         dir,
@@ -1501,16 +1535,71 @@ fn run_sequence(idx: u64, seed: u64, base: &Path, lane: u64, cor_num: u64, cor_d
         compared: 0,
         t_observe: 0.0,
         t_corrupt: 0.0,
+        deadline,
     };
     s.log.push(format!(
         "flags: single_file={} reopen={} truncate={} rotate={} undo={} nosync={} torn={} db_checkpoint={} storage_initial_pages={}",
         s.fl.single, s.fl.reopen, s.fl.trunc, s.fl.rotate, s.fl.undo, s.fl.nosync, s.fl.torn, s.fl.dbckpt, init_pages
     ));
+    s
+}
+
+/// Fixed minimal histories, one per defect class seen on the unchanged tree, so that every run
+/// (any seed) exercises each of them; they go through exactly the same executor and oracle.
+fn scenarios() -> Vec<(&'static str, bool, bool, Vec<Op>)> {
+    let w = |fid: u64, page: u32| Op::Write { api: 1, fid, page, dbs: NPAGES };
+    // (name, single_file, corruption sweep afterwards, ops)
+    vec![
+        ("reopen_then_append", false, false, vec![w(1, 1), w(1, 2), Op::Reopen, w(1, 3)]),
+        ("truncate_then_append", false, false, vec![w(1, 1), w(1, 2), Op::Truncate { sync_first: false }, w(1, 3)]),
+        ("zero_filled_tail_after_crash", false, false, vec![w(1, 1), Op::Torn(Torn::Zeros { len: 2 * FRAME })]),
+        ("truncate_with_buffered_frames", false, false, vec![Op::Mode(1), w(1, 1), Op::Truncate { sync_first: false }]),
+        ("checkpoint_with_buffered_frames", true, false, vec![Op::Mode(1), Op::Write { api: 0, fid: 0, page: 1, dbs: NPAGES }, Op::Checkpoint { sync_first: false }]),
+        ("torn_tail_then_reopen_and_append", false, false, vec![w(1, 1), w(1, 2), Op::Torn(Torn::Cut { back: FRAME - 100 }), w(1, 3), Op::Observe]),
+        ("two_segments_swept", false, true, vec![w(1, 1), w(2, 2), Op::Rotate, w(1, 3), w(3, 1)]),
+    ]
+}
+
+fn run_scenario(k: usize, base: &Path, crc: &[u64; 256], deadline: std::time::Instant) -> SeqResult {
+    let t_seq = std::time::Instant::now();
+    let (name, single, sweep, ops) = scenarios().into_iter().nth(k).unwrap();
+    let fl = Flags { single, reopen: true, trunc: true, rotate: true, undo: false, nosync: true, torn: true, dbckpt: false };
+    let mut s = new_seq(1_000_000 + k as u64, Rng::new(k as u64), base, "scen", fl, NPAGES, crc, deadline);
+    s.log.push(format!("scenario: {}", name));
     if !s.open_wal(true) {
         return s.res;
     }
-    if !s.rng.chance(1, 3) {
-        // fsync per frame is the default mode; most sequences run without it to stay inside the time budget
+    for op in ops {
+        if s.stop {
+            break;
+        }
+        s.exec(op);
+    }
+    s.res.c("scenarios", 1);
+    finish_seq(s, t_seq, if sweep { (1, 1) } else { (0, 1) }, 12, k == 0)
+}
+
+fn run_sequence(idx: u64, seed: u64, base: &Path, lane: u64, cor_num: u64, cor_den: u64, cor_samples: usize, crc: &[u64; 256], deadline: std::time::Instant) -> SeqResult {
+    let t_seq = std::time::Instant::now();
+    let mut rng = Rng::new(seed);
+    let fl = Flags {
+        single: rng.chance(3, 10),
+        reopen: rng.chance(45, 100),
+        trunc: rng.chance(40, 100),
+        rotate: rng.chance(50, 100),
+        undo: rng.chance(20, 100),
+        nosync: rng.chance(40, 100),
+        torn: rng.chance(15, 100),
+        dbckpt: rng.chance(25, 100),
+    };
+    let init_pages = if rng.chance(1, 4) { 1 + rng.below(NPAGES as u64) as u32 } else { NPAGES };
+    let nops = rng.usize(8, 40);
+    let mut s = new_seq(idx, rng, base, &lane.to_string(), fl, init_pages, crc, deadline);
+    if !s.open_wal(true) {
+        return s.res;
+    }
+    if !s.rng.chance(1, 4) {
+        // fsync per frame (the default mode) costs ~10 ms here; most sequences run without it
         s.api("set_sync_mode", |w| {
             w.set_sync_mode(SyncMode::Normal);
             Ok(())
@@ -1524,6 +1613,13 @@ fn run_sequence(idx: u64, seed: u64, base: &Path, lane: u64, cor_num: u64, cor_d
         let op = s.gen_op();
         s.exec(op);
     }
+    s.res.c("sequences", 1);
+    finish_seq(s, t_seq, (cor_num, cor_den), cor_samples, idx < 3)
+}
+
+fn finish_seq(mut s: Seq, t_seq: std::time::Instant, cor: (u64, u64), cor_samples: usize, sample: bool) -> SeqResult {
+    let idx = s.res.idx;
+    let (cor_num, cor_den) = cor;
     if !s.stop {
         // final: drop (flushes), reopen as a recovering process would, observe everything
         s.log.push("drop + Wal::open + observe".into());
@@ -1538,12 +1634,11 @@ fn run_sequence(idx: u64, seed: u64, base: &Path, lane: u64, cor_num: u64, cor_d
     if s.compared > 0 {
         s.res.nontrivial.push(seq_hash);
     }
-    s.res.c("sequences", 1);
     s.res.c("frames_written", s.next_img);
     if s.sh.reopen_appends > 0 {
         s.res.c("sequences_with_append_after_reopen", 1);
     }
-    if idx < 3 {
+    if sample {
         s.res.sample = Some(json!({"sequence_index": idx, "ops": s.log, "frames_in_final_log": s.sh.total(), "segments": s.sh.segs.len(), "violations": s.res.viols.len()}));
     }
     let clean = !s.stop && s.res.viols.iter().all(|v| v.0 == "read_page_latest");
@@ -1634,67 +1729,6 @@ pub fn run(a: &Args) -> i32 {
     let base = PathBuf::from(format!("/verif/scratch/c03-{}", std::process::id()));
     let _ = std::fs::remove_dir_all(&base);
     std::fs::create_dir_all(&base).expect("scratch dir");
-    if std::env::var("C03_BENCH").is_ok() {
-        let d = base.join("b");
-        let w = Wal::create(&d).unwrap();
-        w.set_sync_mode(SyncMode::Normal);
-        for i in 0..25u64 {
-            w.write_frame_with_file_id((i % 8) as u32, 8, &image(i + 1), i % 4).unwrap();
-        }
-        drop(w);
-        {
-            let d2 = base.join("b2");
-            let w = Wal::create(&d2).unwrap();
-            let t = std::time::Instant::now();
-            for i in 0..50u64 {
-                w.write_frame_with_file_id((i % 8) as u32, 8, &image(i + 1), i % 4).unwrap();
-            }
-            println!("write_frame Full (fsync): {:.3} ms", t.elapsed().as_secs_f64() * 1000.0 / 50.0);
-            w.set_sync_mode(SyncMode::Normal);
-            let t = std::time::Instant::now();
-            for i in 0..50u64 {
-                w.write_frame_with_file_id((i % 8) as u32, 8, &image(i + 1), i % 4).unwrap();
-            }
-            println!("write_frame Normal: {:.3} ms", t.elapsed().as_secs_f64() * 1000.0 / 50.0);
-        }
-        let bytes = std::fs::read(d.join("wal.000001")).unwrap();
-        let n = 200;
-        let mut brs = RecStore { path: base.join("r.tbd"), st: None };
-        let t = std::time::Instant::now();
-        for _ in 0..n {
-            let _ = observe(&mut brs, 8, |_st| Ok(0));
-        }
-        println!("observe(create+fill+decode): {:.3} ms", t.elapsed().as_secs_f64() * 1000.0 / n as f64);
-        let t = std::time::Instant::now();
-        for _ in 0..n {
-            std::fs::write(d.join("wal.000001"), &bytes).unwrap();
-        }
-        println!("fs::write {} bytes: {:.3} ms", bytes.len(), t.elapsed().as_secs_f64() * 1000.0 / n as f64);
-        let t = std::time::Instant::now();
-        for _ in 0..n {
-            let _w = Wal::open(&d).unwrap();
-        }
-        println!("Wal::open+drop: {:.3} ms", t.elapsed().as_secs_f64() * 1000.0 / n as f64);
-        let w = Wal::open(&d).unwrap();
-        let mut st = MmapStorage::create(base.join("r2.tbd"), 8).unwrap();
-        let t = std::time::Instant::now();
-        for _ in 0..n {
-            w.recover_for_file(&mut st, 1).unwrap();
-        }
-        println!("recover_for_file 25 frames: {:.3} ms", t.elapsed().as_secs_f64() * 1000.0 / n as f64);
-        let t = std::time::Instant::now();
-        for _ in 0..n {
-            let _ = WalSegment::open(&d.join("wal.000001"), 1).unwrap();
-        }
-        println!("WalSegment::open+drop: {:.3} ms", t.elapsed().as_secs_f64() * 1000.0 / n as f64);
-        let t = std::time::Instant::now();
-        for _ in 0..n {
-            let _ = crc64(&crc, 0, &bytes);
-        }
-        println!("own crc over file: {:.3} ms", t.elapsed().as_secs_f64() * 1000.0 / n as f64);
-        let _ = std::fs::remove_dir_all(&base);
-        return 0;
-    }
     if cfg!(miri) {
         run_miri(&mut ctx, &base, &mut master);
         let _ = std::fs::remove_dir_all(&base);
@@ -1703,11 +1737,18 @@ pub fn run(a: &Args) -> i32 {
     }
     let quick = ctx.quick();
     let nseq: u64 = if quick { 300 } else { 5000 };
-    let (cor_num, cor_den, cor_samples): (u64, u64, usize) = if quick { (10, 100, 24) } else { (14, 100, 24) };
+    let (cor_num, cor_den, cor_samples): (u64, u64, usize) = if quick { (5, 100, 24) } else { (8, 100, 24) };
     let deadline = if quick { 50.0 } else { 540.0 };
     let seeds: Vec<u64> = (0..nseq).map(|_| master.next()).collect();
     let start = std::time::Instant::now();
+    let hard_deadline = start + std::time::Duration::from_secs_f64(deadline + if quick { 4.0 } else { 30.0 });
     let mut results: Vec<SeqResult> = vec![];
+    for k in 0..scenarios().len() {
+        match catch(|| run_scenario(k, &base, &crc, hard_deadline)) {
+            Ok(r) => results.push(r),
+            Err(p) => ctx.inconclusive(&format!("harness panic in scenario {}: {}", k, p)),
+        }
+    }
     let skipped = std::sync::atomic::AtomicU64::new(0);
     std::thread::scope(|sc| {
         let mut hs = vec![];
@@ -1724,7 +1765,7 @@ pub fn run(a: &Args) -> i32 {
                         skipped.fetch_add(1, std::sync::atomic::Ordering::Relaxed);
                     } else {
                         let idx = i;
-                        match catch(|| run_sequence(idx, seeds[idx as usize], base, lane, cor_num, cor_den, cor_samples, crc)) {
+                        match catch(|| run_sequence(idx, seeds[idx as usize], base, lane, cor_num, cor_den, cor_samples, crc, hard_deadline)) {
                             Ok(r) => out.push(r),
                             Err(p) => {
                                 let mut r = SeqResult { idx, ..Default::default() };
@@ -1743,7 +1784,7 @@ pub fn run(a: &Args) -> i32 {
             results.extend(h.join().expect("lane thread"));
         }
     });
-    results.sort_by_key(|r| r.idx);
+    results.sort_by_key(|r| (r.idx < 1_000_000, r.idx));
     let mut cor_samples_taken = 0;
     // debugging aid: C03_DUMP=<file> gets one JSON line per failed case (the evidence keeps only a few)
     let mut dump = std::env::var("C03_DUMP").ok().and_then(|p| std::fs::File::create(p).ok());
